@@ -23,6 +23,7 @@ func lemmaFill2D(s *scaledBarcode, bc Barcode, width, height int, fill color.Col
 }
 
 func lemmaBlock1D(s *scaledBarcode, bc Barcode, width, height int, fill color.Color, f, ox, i, dx, y int) color.Color {
+	lemmaDivMul(i, f, dx)
 	return s.At(ox+i*f+dx, y)
 }
 
